@@ -485,6 +485,21 @@ class HistoryGen:
             op.update(op="pickle", proto=r.choice([2, 4, 5]), mode=r.choice(self.p.get("pickle_modes", ["replace", "twin"])))
             if op["mode"] == "twin" and len(live) >= self.max_handles + 1:
                 op["mode"] = "replace"
+            if op["mode"] == "twin":
+                self.emit(op)
+                # drive original and twin in lock-step for a while: determined answers must be equal
+                live = [x for x in self.handles if x.alive]
+                ti = len(live) - 1
+                for _ in range(r.range(1, 4)):
+                    k2 = r.weighted([("sat", 2), ("probe", 3), ("eval", 4), ("min", 2), ("max", 2), ("solution", 2), ("batch_eval", 1)])
+                    q = self.query_op(k2, hi, h)
+                    first = len(self.ops)
+                    self.emit(q)
+                    q2 = dict(q)
+                    q2["h"] = ti
+                    q2["same_as"] = first
+                    self.emit(q2)
+                return
         elif kind == "pickle_expr":
             e = r.choice(self.recent + self.recent_cs) if (self.recent or self.recent_cs) else self.eg.boolean(2)
             op = {"op": "pickle_expr", "e": e, "proto": r.choice([2, 4, 5])}
@@ -550,11 +565,78 @@ class HistoryGen:
         lo, hi = p.get("length", (3, 40))
         # many short runs, some long
         n = r.range(lo, min(hi, lo + 9)) if r.chance(55) else r.range(lo, hi)
+        rec = {"config": self.config()}
+        if p.get("fault_enum"):
+            return self.generate_fault_enum(rec, n)
         guard = 0
+        restart_at = r.range(2, max(2, n - 2)) if p.get("fresh_restart") else None
         while len(self.ops) < n and guard < 4 * n:
             guard += 1
+            if restart_at is not None and len(self.ops) >= restart_at:
+                self.emit({"op": "restart_fresh", "hashseed": r.choice([1, 2, 3, 99, 31337]), "proto": r.choice([2, 4, 5])})
+                restart_at = None
             self.gen_op()
-        return {"config": self.config(), "ops": self.ops}
+        rec["ops"] = self.ops
+        fr = p.get("fault_rate")
+        if fr:
+            fr_rng = Rng(derive(self.seed, "fault"))
+            kinds = p.get("fault_kinds", FAULT_KINDS)
+            faults = []
+            for i, op in enumerate(self.ops):
+                if op["op"] in FAULTABLE and fr_rng.chance(fr):
+                    faults.append({"op": i, "nth": fr_rng.range(1, 4), "kind": fr_rng.choice(kinds),
+                                   "phase": fr_rng.choice(["early", "late"])})
+            rec["faults"] = faults
+        return rec
+
+    def generate_fault_enum(self, rec, n):
+        """prefix history, [branch], TARGET query, [branch], suffix on the faulted solver and its branches"""
+        r = self.r
+        fr = Rng(derive(self.seed, "fault"))
+        pre = r.range(1, max(2, n // 2))
+        guard = 0
+        while len(self.ops) < pre and guard < 4 * pre:
+            guard += 1
+            self.gen_op()
+        live = [h for h in self.handles if h.alive]
+        hi = r.below(len(live))
+        if r.chance(40) and len(live) < self.max_handles + 1:
+            self.emit({"op": "branch", "h": hi})
+        kind = r.weighted([("eval", 6), ("batch_eval", 2), ("min", 3), ("max", 3), ("solution", 2), ("sat", 2), ("probe", 1)])
+        op = self.query_op(kind, hi, live[hi])
+        if op["op"] in ("eval", "batch_eval") and r.chance(60):
+            op["n"] = max(op["n"], r.range(2, 6))  # several checks: blocking clauses are in flight
+        target = len(self.ops)
+        self.emit(op)
+        live = [h for h in self.handles if h.alive]
+        if r.chance(40) and len(live) < self.max_handles + 1:
+            self.emit({"op": "branch", "h": hi})
+        # suffix: mostly queries on the faulted handle and on its branches
+        suffix = r.range(3, 9)
+        w0 = dict(self.weights)
+        for k in ("forget", "gc", "backend_downsize", "new"):
+            self.weights[k] = 0
+        end = len(self.ops) + suffix
+        guard = 0
+        while len(self.ops) < end and guard < 40:
+            guard += 1
+            if r.chance(45):
+                k2 = r.weighted([("eval", 5), ("probe", 4), ("min", 2), ("max", 2), ("sat", 2), ("solution", 1), ("batch_eval", 1)])
+                live = [h for h in self.handles if h.alive]
+                self.emit(self.query_op(k2, hi, live[hi]))
+            else:
+                self.gen_op()
+        self.weights = w0
+        kinds = fr.sample(self.p.get("fault_kinds", FAULT_KINDS), 2)
+        if fr.chance(20):
+            kinds.append("interrupt")
+        rec["ops"] = self.ops
+        rec["fault_enum"] = {"targets": [target], "kinds": kinds, "phases": ["early", "late"]}
+        return rec
+
+
+FAULT_KINDS = ["timeout", "rlimit", "memory", "unknown", "canceled"]
+FAULTABLE = {"sat", "eval", "batch_eval", "min", "max", "solution", "unsat_core"}
 
 
 ALL_EXACT = [("Solver", 4), ("SolverCacheless", 2), ("SolverComposite", 3), ("SolverReplacement", 2), ("SolverHybrid", 2)]
@@ -622,6 +704,15 @@ PROFILES = {
         "length": (3, 25),
         "weights": {"batch_eval": 2, "branch": 4, "simplify": 1},
     },
+    "C18fresh": {
+        "frontends": ALL_EXACT + [("SolverVSA", 1)],
+        "length": (5, 24),
+        "weights": {"pickle": 4, "pickle_expr": 2, "branch": 8, "split": 0, "forget": 1},
+        "approx_ops_allowed": APPROX_CORE_OPS,
+        "approx_simple_constraints": True,
+        "fresh_restart": True,
+        "max_handles": 5,
+    },
     "C14": {
         "frontends": ALL_EXACT,
         "length": (5, 40),
@@ -658,12 +749,29 @@ PROFILES = {
         "never_swarm_out": ("g_truth", "is_true", "is_false"),
         "extra_pct": 20,
         "hybrid_exact": [None, True],
-        "approx_ops_allowed": APPROX_OPS,
+        "approx_ops_allowed": APPROX_CORE_OPS,
+        "approx_simple_constraints": True,
+    },
+    "C17": {
+        "frontends": [("Solver", 4), ("SolverCacheless", 4), ("SolverComposite", 3), ("SolverHybrid", 2), ("SolverReplacement", 2)],
+        "length": (4, 18),
+        "fault_enum": True,
+        "weights": {"branch": 8, "forget": 0, "gc": 0},
+        "extra_pct": 20,
+    },
+    "C17multi": {
+        "frontends": [("Solver", 4), ("SolverCacheless", 4), ("SolverComposite", 3), ("SolverHybrid", 2), ("SolverReplacement", 2)],
+        "length": (5, 30),
+        "fault_rate": 14,
+        "weights": {"branch": 8},
     },
     "C18": {
         "frontends": ALL_EXACT + [("SolverVSA", 1)],
         "length": (4, 30),
         "weights": {"pickle": 14, "pickle_expr": 5, "branch": 6},
         "never_swarm_out": ("pickle",),
+        "approx_ops_allowed": APPROX_CORE_OPS,
+        "approx_simple_constraints": True,
+        "max_handles": 6,
     },
 }
